@@ -292,7 +292,7 @@ def runner_phase(run, tier, workdir, binary, rng, tag="runners"):
     inv = ["C13_Once", "C13_AfterReady", "C13_StopAtError", "C09_FaultFails", "C04_CleanFailure"]
     props = ["C09_NoRunnerAfterFailure"]
     vlib.stage_specs(rd, ["Container.tla", "MCEngR.tla", "TraceContainer.tla", "MonitorContainer.tla"])
-    n_mc = 2 if tier == "quick" else 3
+    n_mc = 2          # (N=3 has 655 k scenarios: far beyond a thorough budget; depth comes from the recorded real starts)
     vlib.write_cfg(os.path.join(rd, "r.cfg"), constants=dict(N=n_mc, MaxLookups=0, Scenarios="<- Fam", **FIX), spec="Spec", invariants=inv, properties=props)
     r = vlib.run_tlc(rd, "MCEngR", "r.cfg", workers=8, timeout=3000, jvm=vlib.JVM_BIG)
     run.add_model_run("MCEngR N=%d: runner sequences x graphs x lazies x one fault" % n_mc, r)
